@@ -243,13 +243,10 @@ def _r12f(rep):
                         term = elem * sp.Sum(dterm, (l, 0, M - 1)) / M
                         if arm == "with NAC":
                             term = term + sp.Function("ddnac")(sp.expand(d * n * n * 9 + i * 9 * n + j * 9 + a * 3 + b)) * sp.Sum(trig(phi_red), (l, 0, M - 1)) / M
-                        sel_f = sel(sp.Function("p2s_map")(j) - sp.Function("s2p_map")(k))
-                        want = sp.Function("derivative_dynmat")(adr, c_) + sp.Sum(sel_f * term, (k, 0, ns - 1))
                         got = st.cell("derivative_dynmat", adr, c_)
-                        if not celem.same(got, want):
-                            alt = want.subs(sel_f, sel(sp.Function("s2p_map")(k) - sp.Function("p2s_map")(j)))
-                            if not celem.same(got, alt):
-                                bad.append((d, a, b, "Re" if c_ == 0 else "Im", str(got)[:220]))
+                        wants = [sp.Function("derivative_dynmat")(adr, c_) + sp.Sum(sf * term, (k, 0, ns - 1)) for sf in (sel(sp.Function("p2s_map")(j) - sp.Function("s2p_map")(k)), sel(sp.Function("s2p_map")(k) - sp.Function("p2s_map")(j)))]
+                        if not any(celem.same(got, w_) for w_ in wants):
+                            bad.append((d, a, b, "Re" if c_ == 0 else "Im", str(got)[:220]))
         rep.instance("R12f", DDMC, "get_derivative_dynmat_at_q", f"{arm}: all 27 x 2 elements equal d/dq_cart[n] of the forward term" + (" + dnac * coefficient + ddnac * phase" if arm == "with NAC" else ""), not bad,
                      f"{arm}: element (n, a, b, part) = {bad[0][:4] if bad else ''} is {bad[0][4] if bad else ''}: it is not the Cartesian derivative of the forward-kernel term over the same images and shortest vectors, so the analytic group velocity is not the gradient of the frequencies phonopy itself reports", line=line)
         rep.instance("R12f", DDMC, "get_derivative_dynmat_at_q", f"{arm}: exactly the 54 cells [n][3i+a][3j+b] are written", written == want_written, f"other cells than [n][3i+a][3j+b] are written ({sorted(written ^ want_written)[:3]})", line=line)
